@@ -195,6 +195,18 @@ def check_lookups(M, net, rec, prop="C08", subset=None, op=None):
                 rec.violation(f"{prop}:a memoised lookup method of a Network subclass, listed in the library's invalidate_cache decorator, disagrees with the graph after {_opkind(op)}",
                               {"op": repr(op)[:200], "got": len(got_), "expected": len(exp_)})
                 break
+        if hasattr(net, "ramp_nodes"):
+            try:
+                got_n = {id(o_): id(n_) for o_, n_ in net.ramp_nodes.items()}
+                exp_n = {}
+                for n_, d_ in G_._node.items():  # (one object may sit at several nodes: the last one wins, as in `origins`)
+                    if X.ORIGIN in d_ and isinstance(d_[X.ORIGIN], M.MeteredOnRamp):
+                        exp_n[id(d_[X.ORIGIN])] = id(n_)
+                if set(got_n) != set(exp_n) and _once(net, ("lookup", "ramp_nodes")):
+                    rec.violation(f"{prop}:a cached lookup of a Network subclass, listed in the library's invalidate_cache decorator, disagrees with the graph after {_opkind(op)}",
+                                  {"op": repr(op)[:200], "lookup": "ramp_nodes (cached_property built from a helper function)"})
+            except Exception as e:
+                rec.violation(f"{prop}:a subclass lookup kept fresh with invalidate_cache raised {type(e).__name__} after {_opkind(op)}", {"exception": repr(e)[:300]})
         exp_r = [id(d_[X.ORIGIN]) for d_ in G_._node.values() if X.ORIGIN in d_ and isinstance(d_[X.ORIGIN], M.MeteredOnRamp)]
         try:
             got_r = [id(o_) for o_ in net.ramps]
